@@ -539,6 +539,23 @@ package core
 //@   ensures[C03,@duplicated-path-parameter] imp(result1 == nil, forallp(i, j, at(result0, i), at(result0, j), imp(result0.off <= i && i < j && j < result0.off + len(result0),
 //@       at(result0, i).parameter != at(result0, j).parameter)))
 // ---------------------------------------------------------------------------
+// The core is built around the root file AS GIVEN (C14: INCLUDE parameters are resolved against the directory of the
+// including file's name; a root renamed by the builder - made absolute, cleaned, resolved - moves that directory).
+// An option configures the ban set and nothing else (uniform contract of the Option function type).
+//@ functype Option(c)
+//@   property C14,C19
+//@   requires c != nil
+//@   modifies c.bannedDirectives, allmaps(map[directive.Enumeration]struct{})
+//@ func NewJApiCore(file, oo)
+//@   property C14
+//@   attr assumesafe
+//@   requires file != nil
+//@   modifies anything
+//@   ensures[C14,@root-file-as-given] result != nil && result.scanner != nil && result.scanner.file == file
+//@ func NewJApiCore loop 1
+//@   invariant core != nil && core.scanner != nil && core.scanner.file == file
+
+// ---------------------------------------------------------------------------
 // Path bodies (C09, C05, C10): the schema registered for a Path directive is compiled from the bytes of THAT directive's
 // body - its file, its offsets. (A body at the same offsets of another file, or the body of another copy, is another
 // body: C09-6 reused a schema by "[begin:end]" alone.) gBody*: the bytes a path schema was read from (ghost).
